@@ -142,6 +142,9 @@ func runProperty(p *Prog, prop, tier string, onlyFunc string) *PropRun {
 		names = []string{onlyFunc}
 	}
 	pr.Funcs = names
+	for _, n := range p.renameNotes {
+		pr.Notes[n] = true
+	}
 	if onlyFunc == "" {
 		// induction base: every invariant clause this property relies on is established by a
 		// constructor contract that is proved under this property; otherwise say so
@@ -530,6 +533,7 @@ type NamedResult struct {
 	Status   string   `json:"status"`
 	Solvers  []string `json:"solvers"`
 	Seconds  float64  `json:"seconds"`
+	MaxSeconds float64 `json:"max_instance_seconds"`
 	Failing  *Obligation `json:"-"`
 }
 
@@ -545,6 +549,9 @@ func aggregate(pr *PropRun) []*NamedResult {
 		}
 		nr.Paths++
 		nr.Seconds += o.Result.Seconds
+		if o.Result.Seconds > nr.MaxSeconds {
+			nr.MaxSeconds = o.Result.Seconds
+		}
 		found := false
 		for _, s := range nr.Solvers {
 			if s == o.Result.Solver {
@@ -631,7 +638,7 @@ func writeEvidence(verifDir string, pr *PropRun, results []*NamedResult, violati
 		if r.Status == "discharged" {
 			dis++
 		}
-		per = append(per, map[string]interface{}{"name": r.Name, "status": r.Status, "path_instances": r.Paths, "solvers": r.Solvers, "seconds": round3(r.Seconds)})
+		per = append(per, map[string]interface{}{"name": r.Name, "status": r.Status, "path_instances": r.Paths, "solvers": r.Solvers, "seconds": round3(r.Seconds), "max_instance_seconds": round3(r.MaxSeconds)})
 	}
 	for _, o := range pr.Obls {
 		totals[o.Result.Solver] += o.Result.Seconds
